@@ -43,6 +43,7 @@ type Obs struct {
 	Created       []string `json:"created"`   // files and directories that exist afterwards but not before
 	Modified      []string `json:"modified"`  // files whose content changed
 	OutputsOK     int      `json:"outputsok"` // expected output files that exist and parse as Go
+	OutputsThere  int      `json:"outputsthere"` // expected output files that exist, are not the sentinel and are not empty
 	OutputsWanted int      `json:"outputswanted"`
 	StderrText    string   `json:"-"`
 	Cmd           []string `json:"-"`
@@ -89,6 +90,8 @@ func frag(kind string) any {
 		return m("type", "object", "properties", m("k", m("type", "string")), "default", m("", 1))
 	case "arraynoitems":
 		return m("type", "array")
+	case "badgotype": // generates, but the emitted text is not valid Go (the tool warns and writes it unformatted)
+		return m("type", "string", "goJSONSchema", m("type", "map[string"))
 	}
 	return m("type", "strng")
 }
@@ -106,10 +109,11 @@ func baseSchema(id string, k int) map[string]any {
   "kind": {"enum": ["a", "b"]},
   "d": {"$ref": "#/$defs/D"},
   "a": {"allOf": [{"type": "object", "properties": {"x": {"type": "string"}}}, {"type": "object", "properties": {"y": {"type": "integer"}}}]},
-  "o": {"anyOf": [{"type": "object", "properties": {"x": {"type": "string"}}, "required": ["x"]}, {"type": "object", "properties": {"y": {"type": "integer"}}, "required": ["y"]}]}
+  "o": {"anyOf": [{"type": "object", "properties": {"x": {"type": "string"}}, "required": ["x"]}, {"type": "object", "properties": {"y": {"type": "integer"}}, "required": ["y"]}]},
+  "br": {"allOf": [{"$ref": "#/$defs/Br"}, {"type": "object", "properties": {"z": {"type": "string"}}}]}
  },
  "required": ["name"],
- "$defs": {"D": {"type": "object", "properties": {"v": {"type": "boolean"}}}}
+ "$defs": {"D": {"type": "object", "properties": {"v": {"type": "boolean"}}}, "Br": {"type": "object", "properties": {"bx": {"type": "string"}}}}
 }`, id, k)), &v)
 	return v
 }
@@ -211,6 +215,15 @@ func Materialize(s *Scenario, dir string) (args []string, wanted []string, err e
 				err = fmt.Errorf("unknown file fault %q", a.Fault)
 			}
 			if err != nil {
+				return
+			}
+			continue
+		}
+		if a.Fault == "droppeddef" {
+			// the allOf branch {"$ref": "#/$defs/Br"} every argument carries now points at a definition THIS document
+			// lacks (other documents of the run still define it, under the same reference text)
+			delete(sch["$defs"].(map[string]any), "Br")
+			if err = write(p, sch); err != nil {
 				return
 			}
 			continue
@@ -356,8 +369,13 @@ func Run(bin, dir string, args []string, wanted []string, stdin []byte) *Obs {
 		o.Modified = []string{}
 	}
 	for _, w := range wanted {
-		if b, err := os.ReadFile(w); err == nil && parsesAsGo(b) && !bytes.HasPrefix(b, []byte("// sentinel")) {
-			o.OutputsOK++
+		if b, err := os.ReadFile(w); err == nil && !bytes.HasPrefix(b, []byte("// sentinel")) {
+			if parsesAsGo(b) {
+				o.OutputsOK++
+			}
+			if len(b) > 0 {
+				o.OutputsThere++
+			}
 		}
 	}
 	return o
